@@ -43,6 +43,27 @@ Proof.
   destruct ((le (slice bs (t - 8) 4) =? 0) && (le (slice bs (t - 4) 4) =? 8)); reflexivity.
 Qed.
 
+(* a misaligned pointer: the size test of BytesRef::try_from comes first, then the alignment test; nothing else is read *)
+Lemma c02_misaligned p a bs :
+  a mod 8 <> 0 -> 8 <= len bs ->
+  mbi_load p false {| m_base := a; m_bytes := bs |} =
+    if le (slice bs 0 4) <? 8 then Err EShorterThanHeader else Err EWrongAlignment.
+Proof.
+  intros Ha H8. unfold mbi_load, ref_from_ptr, mrd, rd. cbn [m_bytes hsize].
+  destruct (N.leb_spec (0 + 8) (len bs)) as [_|X]; [|lia]. cbn [bind].
+  rewrite total_size_spec, stored_boot by lia. cbn [bind].
+  set (t := le (slice bs 0 4)) in *.
+  rewrite ref_from_slice_closed. unfold ref_from_slice_spec. cbn [hsize].
+  rewrite N.add_0_r.
+  destruct (N.ltb_spec t 8) as [H1|H1]; [reflexivity|].
+  destruct (N.eqb_spec (a mod 8) 0) as [H2|H2]; [contradiction|reflexivity].
+Qed.
+
+Example c02_misaligned_example :
+  mbi_load Dev false {| m_base := 4; m_bytes := [x10;x00;x00;x00; x00;x00;x00;x00; x00;x00;x00;x00;x08;x00;x00;x00] |}
+  = Err EWrongAlignment.
+Proof. vm_compute. reflexivity. Qed.
+
 Lemma c02_null p m : mbi_load p true m = Err ENull.
 Proof. reflexivity. Qed.
 
